@@ -15,7 +15,9 @@ def text (bs : Bytes) : Json := Json.str (String.ofList (bs.map Char.ofNat))
 
 def letters (tab : List Nat) (codes : List Nat) : Json := text (codes.map (fun c => (tab[c]?).getD 63))
 
-def chromJ (c : Bytes) : Json := if c == star || c == [] then Json.null else text c
+/-- the reference column: `*` (no reference) is rendered as null; an EMPTY name is what the model returns for a reference
+index outside the name list, where the code raises: rendered as an error marker, never as "no reference" -/
+def chromJ (c : Bytes) : Json := if c == star then Json.null else if c == [] then Json.str "E:reference-index-out-of-range" else text c
 
 /-- a decoded record rendered with the letter tables `cl` (CIGAR) and `sl` (sequence) -/
 def drecJ (cl sl : List Nat) (d : DRec) : Json :=
@@ -61,7 +63,10 @@ def handle (op : String) (j : Json) : Except String Json := do
     pure (reply m (some s))
   | "chunked" =>
     let k ← getNat j "k"
-    let chunks := (readAllChunks oc on names k body).map (·.1)
+    -- header first, then chunks of the record area (the same file object)
+    let chunks := match readFileChunks oc on members k with
+      | some (_, cs) => cs.map (·.1)
+      | none => []
     let m := Json.mkObj [("recs", Json.arr ((chunks.flatten).map mj).toArray), ("chunks", natList (chunks.map List.length))]
     let s := Json.mkObj [("recs", Json.arr ((recs.map (view names)).map sj).toArray)]
     pure (reply m (some s))
